@@ -23,6 +23,7 @@ def run(chk):
     from .c09 import r09c
 
     r09c(chk, 'R04.e')
+    r04f(chk)
 
 
 def _skip_calls(fn):
@@ -265,3 +266,29 @@ def r04d(chk, rid='R04.d'):
     eof = [n for n in loop.body if isinstance(n, ast.If) and ("'EOF' == typ" in text(n.test) or "typ == 'EOF'" in text(n.test)) and any(isinstance(x, ast.Break) for x in n.body)]
     ok = bool(eof) and loop.body.index(eof[0]) <= 1
     chk.ob(rid, UTIL, 'Base._tokensupto2', 'EOF ends the slice before anything else is looked at', ok, 'an EOF token inside a skipped construct would be consumed')
+
+
+def r04f(chk, rid='R04.f'):
+    chk.rule(rid, 'end of input inside @media: when the token that ends the block of CSSMediaRule._setCssText is EOF, that EOF token itself is handed on with the tokens of the contained rules (unconditionally, before the variable is re-bound to the synthetic "}"), so that every construct that is still open - at any nesting depth - completes itself the way it does at the end of a sheet')
+    m = chk.repo.mod(MEDIA)
+    fn = m.get('CSSMediaRule._setCssText')
+    branches = []
+    for n in ast.walk(fn):
+        if isinstance(n, ast.If) and "'EOF'" in text(n.test) and m.enclosing_def(n) is fn:
+            calls = [c for c in ast.walk(n.test) if isinstance(c, ast.Call) and call_name(c) == 'self._type' and c.args and isinstance(c.args[0], ast.Name)]
+            if calls:
+                branches.append((n, calls[0].args[0].id))
+    if len(branches) != 1:
+        raise AnalysisError(f'CSSMediaRule._setCssText: {len(branches)} end-of-input branches found (1 expected)')
+    node, var = branches[0]
+    handed = None
+    rebound = None
+    for i, st in enumerate(node.body):
+        if rebound is None and isinstance(st, ast.Assign) and any(isinstance(t, ast.Name) and t.id == var for t in st.targets):
+            rebound = i
+        if handed is None and isinstance(st, ast.Expr) and isinstance(st.value, ast.Call) and isinstance(st.value.func, ast.Attribute) and st.value.func.attr == 'append' \
+                and st.value.args and isinstance(st.value.args[0], ast.Name) and st.value.args[0].id == var:
+            handed = i
+    ok = handed is not None and (rebound is None or handed < rebound)
+    chk.ob(rid, MEDIA, 'CSSMediaRule._setCssText', f'the EOF token `{var}` is appended to the contained tokens, unconditionally and before `{var}` is re-bound', ok,
+           'the contained rules do not see the end of input (or only a synthetic "}"): a rule nested two or more blocks deep is cut short and dropped with its complete declarations')
